@@ -1,6 +1,6 @@
 (* C03 - events are applied one at a time, exactly once, in emission order.  Statements only. *)
 From Coq Require Import List Arith Bool.
-From Crux Require Import Rt.Lang Rt.Rt Rt.Host Rt.Check Rt.HostProps.
+From Crux Require Import Rt.Lang Rt.Rt Rt.Tables Rt.Host Rt.Check Rt.HostProps.
 Import ListNotations.
 
 (* For every app (handler table), every history and every reachable core state: the log of applied
@@ -20,9 +20,51 @@ Proof. exact process_log. Qed.
 Theorem C03_executor_never_applies : forall fuel0 fuel k k', run_all fuel0 fuel k = Some k' -> k_log k' = k_log k.
 Proof. exact run_all_log. Qed.
 
-(* Not yet proved here (rests on correspondence): per-task emission order of events emitted by
-   concurrently running tasks, which needs ghost task ids in the model. *)
-Definition C03_per_task_order_statement : Prop := True.
+(* First in, first out, exactly once, between the core's event channel and update.  The PIPELINE of a core is
+   the log of applied events followed by the events still waiting in the channel.  Every step of the model -
+   any executor pass over any tasks, the event loop itself - only ever appends to it: the executor puts what
+   tasks emit at the END of the channel, the loop moves the HEAD of the channel to the end of the log.  So
+   between the channel and update no event overtakes another, none is dropped and none is applied twice; and
+   since a call returns only with the channel empty (C01_core_idle_at_return), what a call applied is exactly
+   what was waiting before it followed by what was emitted during it, in channel order.  For every app,
+   every fuel, every core state (no reachability assumption). *)
+Theorem C03_pipeline_only_grows : forall fuel0 fuel hs k k',
+  process fuel0 fuel hs k = Some k' -> extends (pipeline k) (pipeline k').
+Proof. exact process_pipeline. Qed.
+Theorem C03_executor_only_appends_to_channel : forall fuel0 fuel k k',
+  run_all fuel0 fuel k = Some k' -> extends (pipeline k) (pipeline k').
+Proof. exact run_all_pipeline. Qed.
+Theorem C03_applied_in_channel_order : forall fuel0 fuel hs k k', process fuel0 fuel hs k = Some k' ->
+  exists emitted, k_log k' = k_log k ++ k_events k ++ emitted.
+Proof. exact process_applies_in_channel_order. Qed.
+
+(* Inside a command the same discipline, stated so that the model cannot drift from Stream::poll_next and
+   CommandContext::send_event: an event is sent by appending it to the command's queue, and poll_next hands
+   out exactly the HEAD of that queue (events before effects), removing it and nothing else. *)
+Theorem C03_send_event_appends : forall c e H, c_evs (gcmd c (push_ev c e H)) = c_evs (gcmd c H) ++ [e].
+Proof.
+  intros c e H. unfold push_ev, gcmd, ucmd. cbn [cmds]. rewrite Tables.getd_updd_same. reflexivity.
+Qed.
+Theorem C03_poll_next_takes_the_head : forall F cid w H e H',
+  rpoll_next (step_funs F) cid w H = Some (PNEvent e, H') ->
+  exists H1 rest, rsettle F cid (ucmd cid (set_atomic (Some w)) H) = Some H1 /\
+                  c_evs (gcmd cid H1) = e :: rest /\ H' = ucmd cid (set_evs rest) H1.
+Proof.
+  intros F cid w H e H' E. cbn [step_funs rpoll_next] in E. unfold poll_next_body in E.
+  destruct (rsettle F cid (ucmd cid (set_atomic (Some w)) H)) as [H1|]; [|discriminate].
+  destruct (c_evs (gcmd cid H1)) as [|e1 rest] eqn:EV.
+  - destruct (c_eff (gcmd cid H1)); [|discriminate].
+    destruct (rsettle F cid H1) as [H2|]; [|discriminate].
+    destruct (c_eff (gcmd cid H2)); [destruct (c_evs (gcmd cid H2)); [destruct (Nat.eqb _ _)|]|]; discriminate.
+  - exists H1, rest. assert (X : (PNEvent e1, ucmd cid (set_evs rest) H1) = (PNEvent e, H')) by congruence.
+    assert (e1 = e) by congruence. assert (ucmd cid (set_evs rest) H1 = H') by congruence. subst. auto.
+Qed.
+
+(* NOT proved (carried by the correspondence: the runtime model's traces, which fix the order of every log,
+   are compared with the implementation's on every generated case): that two events emitted by ONE task deep
+   inside nested commands keep their order on the whole way up to the core's channel.  Stating it needs the
+   identity of the emitting task on every event, which the model's events do not carry; the two theorems
+   above are the per-queue facts (append at the tail, take at the head) it would be assembled from. *)
 
 Example C03_nonvacuous :
   under_core FUEL0 [(1, CAll [c_event 2 5; c_event 3 6]); (2, c_event 4 7)] [AEvent 1 0]
